@@ -18,8 +18,8 @@ const sffPkg = "lib/shellfuncsfile"
 
 func init() {
 	register("C16", &propDef{
-		Run: checkC16,
-		Explanation: "Static decision of the clauses of C16 visible in the code and template text. (1) Writer/reader tables agree: the ordered (unsafe→safe) pairs of the strings.ReplaceAll calls applied to the uuencoded script in FromPerl are exactly the inverse of the Perl y/safe/unsafe/ transliteration parsed out of the template constant; every safe letter lies outside the uuencode alphabet (so it cannot collide with data) and is inert in the two quoting contexts, and every alphabet character which is special there (single quote in the shell's '…', backslash in Perl's q{…}) is substituted. (2) Contexts: {{.PerlUU}} sits inside shell single quotes; every \"$@\" of the wrapper is double-quoted; the function name and lead comments are outside quotes. (3) Program text: cleanPerl splits the trimmed script into lines, changes that slice only by storing \"\" into elements (line count and numbering preserved — no truncation, filtering or re-slicing reaches the text handed to perl), and returns the lead comments as a sub-slice of the collected comment run. (4) The function name is TrimSuffix(Base(name), Ext(name)); the script is encoded with uu.AppendEncode into a fresh buffer and the function text is rendered into a buffer allocated in this call. Behavioural equivalence under perl and sh is not decided here (C15 decides the codec's tables and bit layout).",
+		Run:         checkC16,
+		Explanation: "Static decision of the clauses of C16 visible in the code and template text. (1) Writer/reader tables agree: the ordered (unsafe→safe) pairs of the strings.ReplaceAll calls applied to the uuencoded script in FromPerl are exactly the inverse of the Perl y/safe/unsafe/ transliteration parsed out of the template constant; every safe letter lies outside the uuencode alphabet (so it cannot collide with data) and is inert in the two quoting contexts, and every alphabet character which is special there (single quote in the shell's '…', backslash in Perl's q{…}) is substituted. (2) Contexts: {{.PerlUU}} sits inside shell single quotes; every \"$@\" of the wrapper is double-quoted; the function name and lead comments are outside quotes. (3) Program text: cleanPerl splits the trimmed script into lines, changes that slice only by storing \"\" into elements (line count and numbering preserved — no truncation, filtering or re-slicing reaches the text handed to perl), and returns the lead comments as a sub-slice of the collected comment run. (4) The function name is TrimSuffix(Base(name), Ext(name)); the script is encoded with uu.AppendEncode into a fresh buffer and the function text is rendered into a buffer allocated in this call. Behavioural equivalence under perl and sh is not decided here (C15 decides the codec's tables and bit layout). Also: the reader handed to a filter is rooted in the opened file or its bytes through byte-preserving wrappers only.",
 		Assumptions: []string{"Perl's y/// with the r flag transliterates character by character; \\NNN in its replacement list is an octal escape"},
 	})
 }
